@@ -288,7 +288,7 @@ func newExec(P *Program, wk *worker, spec HarnessSpec, prefix []int) *Exec {
 		covers: map[string]bool{}, coverModel: map[string]map[string]string{},
 		funcs: map[*ssa.Function]int{}, stubs: map[string]int{},
 		unixOrigin: map[*Term]*Term{}, durSplit: map[*Term][2]*Term{}, atomVC: map[*Value][]int{},
-		redirects: map[string]Value{}, gomaxprocs: 4,
+		redirects: map[string]Value{}, gomaxprocs: 4, regexps: map[*Value]string{}, known: map[*Term]bool{},
 		opts: spec.Opts, intMode: spec.Opts.IntMode,
 	}
 	if e.opts.MaxSteps == 0 {
@@ -317,6 +317,18 @@ func runPath(P *Program, pkg *ssa.Package, fn *ssa.Function, spec HarnessSpec, w
 		}
 	}
 	defer func() {
+		r := recover()
+		if r == nil || !isViolation(r) {
+			// discharge the obligations recorded before the path ended
+			func() {
+				defer func() {
+					if r2 := recover(); r2 != nil {
+						r = r2
+					}
+				}()
+				e.flushAsserts()
+			}()
+		}
 		res.forks = e.forks
 		res.steps = e.steps
 		res.asserts = e.asserts
@@ -331,7 +343,7 @@ func runPath(P *Program, pkg *ssa.Package, fn *ssa.Function, spec HarnessSpec, w
 			res.funcs[f.String()] += n
 		}
 		res.stubs = e.stubs
-		if r := recover(); r != nil {
+		if r != nil {
 			switch r := r.(type) {
 			case pathAbortV:
 				res.outcome = r.kind
@@ -393,6 +405,14 @@ func runPath(P *Program, pkg *ssa.Package, fn *ssa.Function, spec HarnessSpec, w
 	res.outcome = "ok"
 	res.sample = map[string]interface{}{"decisions": append([]int(nil), e.decisions...), "path_condition_size": len(e.pc), "ghost": firstN(e.ghost, 12)}
 	return
+}
+
+func isViolation(r interface{}) bool {
+	switch r.(type) {
+	case pathAbortV, uncaughtPanic:
+		return true
+	}
+	return false
 }
 
 func (e *Exec) stackSafe() (out []string) {
